@@ -121,6 +121,7 @@ func NewPebbleScanner(dbPath string, opts PebbleScannerOptions) (*PebbleScanner,
 	if opts.ReadOnly {
 		pebbleOpts.ReadOnly = true
 	}
+	verifPebbleOptions(pebbleOpts)
 
 	// Critical Fix: PebbleDB Locking and Concurrency
 	// We implement a retry loop here because automated pipelines or rapid restarts
@@ -303,6 +304,7 @@ func (s *PebbleScanner) AddSignature(sig *detection.Signature) error {
 		return fmt.Errorf("failed to check existing signature %q: %w", sig.ID, err)
 	}
 
+	verifGate("add.read")
 	batch := s.db.NewBatch()
 	defer batch.Close()
 
@@ -375,6 +377,7 @@ func (s *PebbleScanner) AddSignatures(sigs []*detection.Signature) error {
 		lastIdx[sig.ID] = i
 	}
 
+	verifGate("batch.begin")
 	batch := s.db.NewBatch()
 	defer batch.Close()
 
@@ -454,6 +457,7 @@ func (s *PebbleScanner) DeleteSignature(id string) error {
 		return fmt.Errorf("decode signature %q: %w", id, err)
 	}
 
+	verifGate("delete.read")
 	batch := s.db.NewBatch()
 	defer batch.Close()
 
@@ -500,6 +504,7 @@ func (s *PebbleScanner) MarkFalsePositive(id string, notes string) error {
 		return fmt.Errorf("decode signature %q: %w", id, err)
 	}
 
+	verifGate("markfp.read")
 	fpNote := fmt.Sprintf("FP:%s:%s", time.Now().Format(time.RFC3339), notes)
 	sig.Metadata.References = append(sig.Metadata.References, fpNote)
 
@@ -529,9 +534,11 @@ func (s *PebbleScanner) ScanCandidates(topo *topology.FunctionTopology) ([]*dete
 	var candidates []*detection.Signature
 	seen := make(map[string]bool)
 
+	verifGate("cand.cfg")
 	// Create a consistent snapshot
 	snap := s.db.NewSnapshot()
 	defer snap.Close()
+	verifGate("cand.snap")
 
 	// Helper to process index entries using the snapshot
 	processCandidate := func(idxValue []byte) {
@@ -551,6 +558,7 @@ func (s *PebbleScanner) ScanCandidates(topo *topology.FunctionTopology) ([]*dete
 		}
 
 		seen[sigID] = true
+		verifGate("cand.fetch")
 		sigKey := append(append([]byte(nil), prefixSignatures...), []byte(sigID)...)
 		sigData, closer, err := snap.Get(sigKey)
 		if err != nil {
@@ -617,6 +625,7 @@ func (s *PebbleScanner) ScanCandidates(topo *topology.FunctionTopology) ([]*dete
 func (s *PebbleScanner) ScanTopology(topo *topology.FunctionTopology, funcName string) ([]detection.ScanResult, error) {
 	snap := s.db.NewSnapshot()
 	defer snap.Close()
+	verifGate("scan.snap")
 	return s.ScanTopologyWithSnapshot(snap, topo, funcName)
 }
 
@@ -635,8 +644,10 @@ func (s *PebbleScanner) ScanTopologyExact(topo *topology.FunctionTopology, funcN
 	topoHash := detection.GenerateTopologyHash(topo)
 	var bestResult *detection.ScanResult
 
+	verifGate("exact.cfg")
 	snap := s.db.NewSnapshot()
 	defer snap.Close()
+	verifGate("exact.snap")
 
 	topoPrefix := []byte(fmt.Sprintf("%s%s:", prefixIdxTopo, topoHash))
 	upper := incrementLastByte(topoPrefix)
@@ -670,6 +681,7 @@ func (s *PebbleScanner) ScanTopologyExact(topo *topology.FunctionTopology, funcN
 			}
 		}
 
+		verifGate("exact.fetch")
 		sigKey := append(append([]byte(nil), prefixSignatures...), []byte(sigID)...)
 		sigData, closer, err := snap.Get(sigKey)
 		if err != nil {
@@ -1007,6 +1019,7 @@ func (s *PebbleScanner) RebuildIndexes() error {
 		return err
 	}
 
+	verifGate("rebuild.cleared")
 	// Step 2: Iterate Signatures and Re-Index.
 	// Stream signatures to avoid loading everything into RAM (OOM Fix).
 	upper := incrementLastByte(prefixSignatures)
@@ -1055,6 +1068,7 @@ func (s *PebbleScanner) RebuildIndexes() error {
 			if err := commitBatch(); err != nil {
 				return err
 			}
+			verifGate("rebuild.chunk")
 			count = 0
 		}
 	}
@@ -1181,6 +1195,7 @@ func (s *PebbleScanner) ScanTopologyWithSnapshot(snap *pebble.Snapshot, topo *to
 	threshold := s.matchThreshold
 	tolerance := s.entropyTolerance
 	s.mu.RUnlock()
+	verifGate("scan.cfg")
 
 	topoHash := detection.GenerateTopologyHash(topo)
 	fuzzyHash := topology.GenerateFuzzyHash(topo)
@@ -1208,6 +1223,7 @@ func (s *PebbleScanner) ScanTopologyWithSnapshot(snap *pebble.Snapshot, topo *to
 		}
 
 		seen[sigID] = true
+		verifGate("scan.fetch")
 		sigKey := append(append([]byte(nil), prefixSignatures...), []byte(sigID)...)
 		sigData, closer, err := snap.Get(sigKey)
 		if err != nil {
